@@ -467,6 +467,15 @@ func init() {
 			}
 		}
 	})
+	hx.RegisterReplayer("C06/merged-member", func(r *hx.Run, data json.RawMessage) {
+		var c c06Case
+		if err := json.Unmarshal(data, &c); err != nil {
+			panic(err)
+		}
+		if k, m := checkMergedMember(&c, c.What == "expected accepted=true"); k != "" {
+			r.Report(k, m, "C06/merged-member", &c)
+		}
+	})
 	hx.RegisterReplayer("C06/dispatch-type-removed", func(r *hx.Run, data json.RawMessage) {
 		var c c06wfCase
 		if err := json.Unmarshal(data, &c); err != nil {
@@ -819,6 +828,74 @@ func TestC06(t *testing.T) {
 				r.Fail(rt, k, m, "C06/workflow", c)
 			}
 		})
+		// members of merged objects: (x || y).name / (x && y)['name'] over closed, open, map and any
+		// operands in every order. A name that no operand is known to have is accepted exactly when some
+		// operand is open (or a map, or any): then nobody can know it is missing.
+		r.Check(t, "unknown-member-of-merged-objects", hx.N(6000, 100000), func(rt *rapid.T) {
+			n := rapid.IntRange(2, 3).Draw(rt, "noperands")
+			env := &tenv{Ctx: map[string]*tyd{"steps": {Kind: "obj", Props: map[string]*tyd{}}}, Names: []string{"steps"}}
+			known := map[string]bool{}
+			loose := false
+			var ops []string
+			for i := 0; i < n; i++ {
+				name := fmt.Sprintf("m%d", i)
+				var ty *tyd
+				switch rapid.IntRange(0, 5).Draw(rt, "operandkind") {
+				case 0, 1, 2:
+					ty = &tyd{Kind: "obj", Props: map[string]*tyd{}}
+					for _, p := range []string{"p", "q", "r"} {
+						if rapid.Bool().Draw(rt, "has"+p) {
+							ty.Props[p] = &tyd{Kind: rapid.SampledFrom([]string{"str", "num", "any"}).Draw(rt, "pty")}
+							ty.Order = append(ty.Order, p)
+							known[p] = true
+						}
+					}
+					if rapid.IntRange(0, 2).Draw(rt, "open") == 0 {
+						ty.Open = true
+						loose = true
+					}
+				case 3:
+					ty = &tyd{Kind: "map", Elem: &tyd{Kind: "str"}}
+					loose = true
+				case 4:
+					ty = &tyd{Kind: "any"}
+					loose = true
+				default:
+					ty = &tyd{Kind: "obj", Props: map[string]*tyd{}} // closed and empty
+				}
+				env.Ctx["steps"].Props[name] = ty
+				env.Ctx["steps"].Order = append(env.Ctx["steps"].Order, name)
+				ops = append(ops, "steps."+name)
+			}
+			// one operator kind per expression: mixing && and || narrows the left operand (the value of
+			// `a && b` known to be truthy is b), which is a different matter
+			op := rapid.SampledFrom([]string{"||", "&&"}).Draw(rt, "op")
+			src := ops[0]
+			for _, o := range ops[1:] {
+				src += " " + op + " " + o
+			}
+			if n == 3 && rapid.Bool().Draw(rt, "groupright") {
+				src = ops[0] + " " + op + " (" + ops[1] + " " + op + " " + ops[2] + ")"
+			}
+			member := rapid.SampledFrom([]string{"p", "q", "r", "zz"}).Draw(rt, "member")
+			if rapid.Bool().Draw(rt, "index") {
+				src = "(" + src + ")['" + member + "']"
+			} else {
+				src = "(" + src + ")." + member
+			}
+			accept := known[member] || loose
+			c := &c06Case{Env: env, Src: src, What: fmt.Sprintf("expected accepted=%v", accept)}
+			r.Eval()
+			if loose && !known[member] {
+				r.NT(src, envString(env))
+				r.Class("merged-objects/unknown-member-with-open-operand")
+			} else {
+				r.Class("merged-objects/other")
+			}
+			if k, m := checkMergedMember(c, accept); k != "" {
+				r.Fail(rt, k, m, "C06/merged-member", c)
+			}
+		})
 		// workflow_dispatch inputs: an input without `type:` is typed any. Dropping the type of one input
 		// (with its options) never adds a diagnostic, whatever the other inputs are and wherever it is used.
 		r.Check(t, "dispatch-input-type-removed", hx.N(1500, 30000), func(rt *rapid.T) {
@@ -896,6 +973,31 @@ func TestC06(t *testing.T) {
 			}
 		})
 	})
+}
+
+// checkMergedMember: the expression is accepted iff the reference says so (What carries the expectation
+// for replay).
+func checkMergedMember(c *c06Case, accept bool) (key, msg string) {
+	var es []*al.ExprError
+	var err error
+	var pan any
+	func() {
+		defer func() { pan = recover() }()
+		es, err = semaCheck(c.Env, c.Src)
+	}()
+	if pan != nil {
+		return "C06/panic", fmt.Sprintf("panic %v on %q", pan, c.Src)
+	}
+	if err != nil {
+		return "harness/c06-unparsable", err.Error()
+	}
+	if accept && len(es) > 0 {
+		return "C06/member-of-merged-open-object-rejected", fmt.Sprintf("%q under %s: some operand is open (or a map, or any) or has the member, but %v", c.Src, envString(c.Env), errMsgs(es))
+	}
+	if !accept && len(es) == 0 {
+		return "C06/member-unknown-to-all-closed-operands-accepted", fmt.Sprintf("%q under %s: all operands are closed objects without that member, but no diagnostic", c.Src, envString(c.Env))
+	}
+	return "", ""
 }
 
 // checkTypeRemoved: a diagnostic of the loosened workflow below `jobs:` sits on a line that already has
